@@ -137,7 +137,7 @@ class Model:
         kind = op['kind']
         lf = self.lf_by_h[op['lf']]
         kw = dict(op.get('kw') or {})
-        set_name = kw.pop('set_name', None)
+        set_name = kw.pop('set_name', None) or None      # '' names the unnamed set
         key = (kind, set_name)
         owner = self.set_owner.setdefault(key, lf.h)
         if owner != lf.h and key not in self.shared_sets:
